@@ -463,3 +463,15 @@ package stanza
 //@     invariant [C02.consume.node] depth(d) == old(depth(d)) && openNames(d) == old(openNames(d))
 //@     invariant [C02.total.node] count(DecodeFailed) == old(count(DecodeFailed))
 //@     decreases len(start.Attr) - $i
+
+// ---------------------------------------------------------------------------
+// Payload-level decoder reached from Presence through the registry: safety only (no panic on any attribute value).
+//@ func (*stanza.History).UnmarshalXML(h, d, start) (err)
+//@   requires h != nil && d != nil
+//@   assigns *h, depth(d), openNames(d), remaining(d)
+//@   emits TokenRead, DecodeFailed
+//@   loop 1:
+//@     invariant 0 <= $i && $i <= len(start.Attr) && h != nil && d != nil
+//@   loop 2:
+//@     invariant h != nil && d != nil
+//@     decreases remaining(d)
